@@ -3,8 +3,22 @@ from ._write_common import run_common
 from ..core import modules_for
 
 
+def _heap_env():
+    import tempfile
+    tmp = tempfile.mkdtemp(prefix="c07-", dir="/var/tmp")
+    return tmp, {"TMPDIR": tmp, "SFH_SCRATCH": tmp}
+
+
 def run(ctx):
     q = ctx.tier == "quick"
+    if getattr(ctx, "replay", None) and "c07-heapfill" in open(ctx.replay).read():
+        import shutil
+        from .. import heapcodec
+        tmp, env = _heap_env()
+        try:
+            return heapcodec.replay(ctx, ctx.replay, env)
+        finally:
+            shutil.rmtree(tmp, ignore_errors=True)
     if not getattr(ctx, "replay", None):
         from .. import g72x as _g72x
         _g72x.pregen(ctx)
@@ -12,6 +26,13 @@ def run(ctx):
         _codectab.pregen(ctx)
     run_common(ctx, "C07", modules_for("C07"), stride=2 if q else 1, l1_scripts=250 if q else 2500)
     if not getattr(ctx, "replay", None):
+        import shutil
+        from .. import heapcodec, formats     # "repeating the run later or in another process": every codec's first / partial block under three allocator fills (heap history made total)
+        tmp, env = _heap_env()
+        try:
+            heapcodec.run(ctx, "C07", env, formats.writable_formats(ctx))
+        finally:
+            shutil.rmtree(tmp, ignore_errors=True)
         from .. import blockcamp
         blockcamp.run(ctx, "C07", 160 if q else 1600)
         from .. import dwvw
